@@ -29,6 +29,24 @@ class Ctx:
         self.results.append(dict(rule=rule, site=site, key=key, verdict="finding",
                                  witness=what, objects=objects, where=where))
 
+    def unknown(self, rule, site, what, key="", where=None):
+        """the construct the rule examines is outside the domain the rule can decide (an idiom the evaluators do not
+        model, an atom the rule cannot resolve, an anchor that is no longer there): neither ok nor a finding.
+        Any such result makes the run end with ANALYSIS-ERROR / exit 2 unless a positive violation was found too."""
+        self.results.append(dict(rule=rule, site=site, key=key, verdict="unknown", witness=what, where=where))
+
+    def decide(self, cond, decidable, rule, site, what_ok, what_bad=None, key="", objects=None, where=None,
+               why_unknown=None):
+        """three-valued check: ok if cond; finding if not cond and the observed construct lies in the rule's domain
+        (decidable); unknown otherwise"""
+        if cond:
+            self.ok(rule, site, what_ok, key, objects)
+        elif decidable:
+            self.finding(rule, site, what_bad or ("NOT: " + what_ok), key, objects, where)
+        else:
+            self.unknown(rule, site, (why_unknown or "construct not recognised") + ": " + (what_bad or what_ok), key, where)
+        return cond
+
     def info(self, rule, site, what, key=""):
         self.results.append(dict(rule=rule, site=site, key=key, verdict="info", witness=what))
 
@@ -80,6 +98,7 @@ def finish(ctx, explanation, trusted_base, level="other"):
     findings = [r for r in ctx.results if r["verdict"] == "finding"]
     oks = [r for r in ctx.results if r["verdict"] == "ok"]
     infos = [r for r in ctx.results if r["verdict"] == "info"]
+    unknowns = [r for r in ctx.results if r["verdict"] == "unknown"]
     violations, knowns = [], []
     for r in findings:
         (knowns if fid(r) in known_open else violations).append(r)
@@ -88,7 +107,8 @@ def finish(ctx, explanation, trusted_base, level="other"):
     rdir = os.path.join(evdir, "replay")
     # report ----------------------------------------------------------------
     print(f"[{prop}] tier={ctx.tier} rule-instances={len(ctx.results)} ok={len(oks)} "
-          f"findings={len(findings)} (known={len(knowns)}, new={len(violations)}) info={len(infos)}")
+          f"findings={len(findings)} (known={len(knowns)}, new={len(violations)}) undecided={len(unknowns)} "
+          f"info={len(infos)}")
     print(f"[{prop}] analysed: {json.dumps(ctx.analysed, sort_keys=True)}")
     for name, measured, floor in ctx.floors:
         print(f"[{prop}] floor {name}: matched {measured} (>= {floor})")
@@ -108,6 +128,14 @@ def finish(ctx, explanation, trusted_base, level="other"):
                            id=fid(r)), fh, indent=1, default=str)
         print(f"FINDING {fid(r)} at {r.get('where') or r['site']}: {r['witness']}")
         print(f"VIOLATION property={prop} replay={path}")
+    seen_unknown = set()
+    for r in unknowns:
+        if fid(r) in seen_unknown:
+            continue
+        seen_unknown.add(fid(r))
+        print(f"ANALYSIS-ERROR property={prop} rule={r['rule']} site={r['site']}"
+              + (f"#{r['key']}" if r.get("key") else "") + f" at {r.get('where') or r['site']} "
+              f"reason=undecided: {r['witness']}")
     distinct = len({fid(r) for r in ctx.results if r["verdict"] in ("ok", "finding")})
     samples = []
     for r in (violations + knowns + oks)[:40]:
@@ -132,6 +160,7 @@ def finish(ctx, explanation, trusted_base, level="other"):
             "analysed": json.loads(json.dumps(ctx.analysed, default=str)),
             "instance_floors": [{"name": n, "matched": m, "floor": f} for n, m, f in ctx.floors],
             "info": [f"{fid(r)}: {r['witness']}" for r in infos][:40],
+            "undecided": [f"{fid(r)}: {r['witness']}" for r in unknowns][:40],
             "checker_cmd": f"/venv/bin/python /verif/run_check.py {prop} --tier {ctx.tier}",
             "trusted_base": trusted_base,
         },
@@ -141,4 +170,4 @@ def finish(ctx, explanation, trusted_base, level="other"):
     }
     with open(os.path.join(evdir, f"{prop}.json"), "w") as fh:
         json.dump(ev, fh, indent=1, default=str)
-    return 1 if violations else 0
+    return 1 if violations else (2 if unknowns else 0)
